@@ -306,7 +306,7 @@ func forwardScanObligation(p *core.Prog, fn *ssa.Function, b *ssa.BasicBlock, c 
 	}
 	recv := cal.Signature.Recv().Type().String()
 	isDFA := strings.HasSuffix(cpk.Path(), "/dfa/lazy") && strings.HasSuffix(recv, "lazy.DFA")
-	isVM := strings.HasSuffix(cpk.Path(), "/nfa") && (strings.HasSuffix(recv, "nfa.PikeVM") || strings.HasSuffix(recv, "nfa.BoundedBacktracker"))
+	isVM := nfaEngineMethod(cal)
 	if !isDFA && !isVM {
 		return core.Obligation{}, false
 	}
